@@ -272,7 +272,7 @@ inductive HCase | stateNone (r : Bool) | rowNone (r : Bool) | compareNe | compar
 deriving Repr, DecidableEq
 inductive XStep | dryGuard (e : Exc) | load | call | save
 deriving Repr, DecidableEq
-inductive TCheck | generatorReturn | vanishedPredecessor | provisionalProducts | missingProducts
+inductive TCheck | generatorReturn | vanishedPredecessor | ordinaryProducts | provisionalProducts | missingProducts
 deriving Repr, DecidableEq
 inductive BOp | whileActive | pickFirstReady | protocol | appendReport | done | breakIfStop
 deriving Repr, DecidableEq
@@ -1608,6 +1608,22 @@ def _teardown_checks():
     env = Env(fn, "execute.py")
     checks = []
     missing_var = None
+    pending_ordinary = False
+
+    def _missing_listcomp(v):
+        # [x for x in tree_leaves(task.produces) if not x.state()] -> "all"; with `not isinstance(x, PProvisionalNode) and …` -> "ordinary"
+        if not (isinstance(v, ast.ListComp) and len(v.generators) == 1 and _callee(v.generators[0].iter) == "tree_leaves"
+                and _u(v.generators[0].iter.args[0]) == "task.produces" and len(v.generators[0].ifs) == 1
+                and isinstance(v.generators[0].target, ast.Name) and _is_name(v.elt, v.generators[0].target.id)):
+            return None
+        x = v.generators[0].target.id
+        cond = _u(v.generators[0].ifs[0])
+        if cond == f"not {x}.state()":
+            return "all"
+        if cond == f"not isinstance({x}, PProvisionalNode) and (not {x}.state())":
+            return "ordinary"
+        return None
+
     for st in _body(fn):
         src = _u(st)
         if isinstance(st, ast.If) and _callee(st.test) == "is_task_generator" and len(st.body) == 1 \
@@ -1625,23 +1641,37 @@ def _teardown_checks():
             checks.append(("provisionalProducts",)); continue
         if isinstance(st, ast.Assign) and len(st.targets) == 1 and isinstance(st.targets[0], ast.Name):
             v = st.value
-            if isinstance(v, ast.ListComp) and len(v.generators) == 1 and _callee(v.generators[0].iter) == "tree_leaves" \
-                    and _u(v.generators[0].iter.args[0]) == "task.produces" and len(v.generators[0].ifs) == 1 \
-                    and _u(v.generators[0].ifs[0]) == f"not {v.generators[0].target.id}.state()" \
-                    and _is_name(v.elt, v.generators[0].target.id):
+            kind = _missing_listcomp(v)
+            if kind == "all" and not pending_ordinary:
                 missing_var = st.targets[0].id
+                continue
+            if kind == "ordinary" and missing_var is None:
+                # products that are not provisional nodes are checked first (9523bbe); the raise is the common one at the end
+                missing_var = st.targets[0].id
+                pending_ordinary = True
                 continue
             s = _sym(v, env)
             if s.kind != "unknown":
                 env.vars[st.targets[0].id] = s
                 continue
-        if isinstance(st, ast.If) and missing_var and _is_name(st.test, missing_var) and not st.orelse:
+        if isinstance(st, ast.If) and pending_ordinary and isinstance(st.test, ast.UnaryOp) and isinstance(st.test.op, ast.Not) \
+                and _is_name(st.test.operand, missing_var) and not st.orelse and len(st.body) == 2 \
+                and isinstance(st.body[0], ast.Expr) and _callee(st.body[0].value) == "collect_provisional_products" \
+                and isinstance(st.body[1], ast.Assign) and len(st.body[1].targets) == 1 \
+                and _is_name(st.body[1].targets[0], missing_var) and _missing_listcomp(st.body[1].value) == "all":
+            # if not missing: collect_provisional_products(...); missing = [all products without state]
+            checks.append(("ordinaryProducts",)); checks.append(("provisionalProducts",))
+            pending_ordinary = False
+            continue
+        if isinstance(st, ast.If) and missing_var and not pending_ordinary and _is_name(st.test, missing_var) and not st.orelse:
             raises = [n for n in _walk_no_nested(st) if isinstance(n, ast.Raise)]
             if len(raises) == 1 and isinstance(st.body[-1], ast.Raise) and _exc_name(raises[0].exc) == "NodeNotFoundError":
                 checks.append(("missingProducts",)); continue
         if _inert(st, {missing_var or ""}):
             continue
         raise _err(f"teardown: unrecognised statement {src.splitlines()[0]!r}")
+    if pending_ordinary:
+        raise _err("teardown: ordinary products are collected but the provisional products are never resolved / re-checked")
     return checks
 
 
